@@ -153,7 +153,7 @@ pub fn gen_packet(r: &mut Rng, chans: &[u8], hostile: bool) -> Packet {
             Packet::SmallUnreliable { sequence, channel_id, messages: (0..cnt).map(|_| msg(r)).collect() }
         }
         2 | 3 => {
-            let num_slices = if hostile { *r.pick(&[0usize, 1, 2, 3, 1000, 1_000_000, 1_000_001, usize::MAX >> 2]) } else { *r.pick(&[1usize, 2, 3, 1000, 1_000_000]) };
+            let num_slices = if hostile { *r.pick(&[0usize, 1, 2, 3, 1000, 1_000_000, 1_000_001, usize::MAX / 1200 - 1, usize::MAX / 1200, usize::MAX / 1200 + 1, (1 << 62) - 1, usize::MAX >> 2]) } else { *r.pick(&[1usize, 2, 3, 1000, 1_000_000]) };
             let slice_index = if hostile { *r.pick(&[0usize, 1, 2, 3, 999, 1000, usize::MAX >> 2]) } else { r.below(num_slices as u64) as usize };
             let plen = if hostile { *r.pick(&[0usize, 1, 1199, 1200, 1201, 1300]) } else { *r.pick(&[1usize, 600, 1200]) };
             let slice = Slice { message_id: boundary_u62(r), slice_index, num_slices, payload: Bytes::from(r.bytes(plen)) };
@@ -348,6 +348,37 @@ fn gen_ack_range_burst(r: &mut Rng, dst: &Side) -> Vec<Vec<u8>> {
     out
 }
 
+/// Slices that contradict each other: one message id on one channel, announced with different slice counts, indices
+/// beyond the first count, a last slice that is not the shortest, a repeated index with other bytes.
+fn gen_conflicting_slices(r: &mut Rng, dst: &Side) -> Vec<Vec<u8>> {
+    let c = match dst.recv.is_empty() {
+        true => return vec![],
+        false => r.pick(&dst.recv).clone(),
+    };
+    let id = boundary_u62(r) % (1 << 20);
+    let first_n = *r.pick(&[1usize, 2, 2, 3]);
+    let mut out = vec![];
+    let mut seq = r.below(1 << 16);
+    let mut mk = |r: &mut Rng, num: usize, idx: usize, plen: usize| -> Option<Vec<u8>> {
+        seq += 1;
+        let slice = Slice { message_id: id, slice_index: idx, num_slices: num, payload: Bytes::from(r.bytes(plen)) };
+        let p = if c.ty == 0 { Packet::UnreliableSlice { sequence: seq, channel_id: c.id, slice } } else { Packet::ReliableSlice { sequence: seq, channel_id: c.id, slice } };
+        encode_packet(&p, 1400).ok()
+    };
+    if let Some(bb) = mk(r, first_n, 0, 1200) {
+        out.push(bb);
+    }
+    for _ in 0..r.range(1, 3) {
+        let num = *r.pick(&[first_n, first_n + 1, first_n + 4, 1000, 1_000_000]);
+        let idx = *r.pick(&[0usize, first_n.saturating_sub(1), first_n, first_n + 1, num - 1]);
+        let plen = *r.pick(&[1usize, 600, 1200, 1200]);
+        if let Some(bb) = mk(r, num, idx.min(num - 1), plen) {
+            out.push(bb);
+        }
+    }
+    out
+}
+
 fn gen_hostile_raw(r: &mut Rng, dst: &Side) -> Vec<u8> {
     if r.chance(1, 6) {
         return gen_raw_ack(r);
@@ -433,7 +464,11 @@ pub fn gen_pair(r: &mut Rng, g: &PairGen) -> Vec<Tree> {
             }
             6 => ops.push(op_status(sides[s].ep)),
             7 => {
-                if r.chance(1, 40) {
+                if r.chance(1, 6) {
+                    for raw in gen_conflicting_slices(r, &sides[s]) {
+                        ops.push(op_raw(sides[s].ep, &raw));
+                    }
+                } else if r.chance(1, 40) {
                     for raw in gen_ack_range_burst(r, &sides[s]) {
                         ops.push(op_raw(sides[s].ep, &raw));
                     }
